@@ -73,13 +73,14 @@ typedef struct {
 
 static const cfg_t cfgs[] = {
     /* quick */
-    { "N1 ult key_set ballast values D6", 1, 1, U_ULT, API_KEY, 1, A_VALUES, 6, 0 },
+    { "N1 ult key_set ballast narrow D6", 1, 1, U_ULT, API_KEY, 1, A_NARROW, 6, 0 },
     { "N2 task self_set ballast keys D5", 1, 2, U_TASK, API_SELF, 1, A_KEYS, 5, 1 },
     { "N4 unnamed-ult key_set lazy values D5", 1, 4, U_ULT_UNNAMED, API_KEY, 0, A_VALUES, 5, 0 },
-    { "N1 primary self_set lazy D5", 1, 1, U_PRIMARY, API_SELF, 0, A_PRIM, 5, 1 },
+    { "N1 primary self_set lazy D4", 1, 1, U_PRIMARY, API_SELF, 0, A_PRIM, 4, 1 },
     { "N2 cb-ult key_set lazy keys D5", 1, 2, U_ULT_CB, API_KEY, 0, A_KEYS, 5, 0 },
     { "N4 unnamed-task self_set ballast narrow D6", 1, 4, U_TASK_UNNAMED, API_SELF, 1, A_NARROW, 6, 1 },
     { "N2 ult self_set ballast life D6", 1, 2, U_ULT, API_SELF, 1, A_LIFE, 6, 0 },
+    { "N1 ult self_set ballast values D5", 1, 1, U_ULT, API_SELF, 1, A_VALUES, 5, 1 },
     /* thorough */
     { "N1 ult key_set ballast values D7", 0, 1, U_ULT, API_KEY, 1, A_VALUES, 7, 1 },
     { "N2 ult self_set lazy narrow D8", 0, 2, U_ULT, API_SELF, 0, A_NARROW, 8, 0 },
@@ -91,6 +92,7 @@ static const cfg_t cfgs[] = {
     { "N2 primary key_set ballast D6", 0, 2, U_PRIMARY, API_KEY, 1, A_PRIM, 6, 0 },
     { "N1 task self_set lazy life D8", 0, 1, U_TASK, API_SELF, 0, A_LIFE, 8, 1 },
     { "N8 unnamed-task key_set lazy values D6", 0, 8, U_TASK_UNNAMED, API_KEY, 0, A_VALUES, 6, 1 },
+    { "N2 ult key_set ballast values D6", 0, 2, U_ULT, API_KEY, 1, A_VALUES, 6, 0 },
 };
 
 /* ---- reference model -------------------------------------------------- */
